@@ -215,7 +215,16 @@ def _source_encoding(source):
     for line in re.split(br'\r\n|\r|\n', source, maxsplit=2)[:2]:
         cookie = re.match(br'^[ \t\f]*#.*?coding[:=][ \t]*([-_.a-zA-Z0-9]+)', line)
         if cookie:
-            return cookie.group(1).decode('ascii')
+            encoding = cookie.group(1).decode('ascii')
+
+            # The interpreter also accepts these with a suffix, e.g. latin-1-unix
+            normalised = encoding[:12].lower().replace('_', '-')
+            if normalised == 'utf-8' or normalised.startswith('utf-8-'):
+                return 'utf-8'
+            if normalised in ['latin-1', 'iso-8859-1', 'iso-latin-1'] or normalised.startswith(('latin-1-', 'iso-8859-1-', 'iso-latin-1-')):
+                return 'iso-8859-1'
+
+            return encoding
 
     return 'utf-8'
 
